@@ -136,6 +136,7 @@ static inline void *upool_alloc_internal(struct upool *upool)
  */
 static inline void upool_free(struct upool *upool, void *obj)
 {
+    UVERIF_POOL(UVERIF_POOL_FREE, upool, obj);
     if (unlikely(!ulifo_push(&upool->lifo, obj)))
         upool->free_cb(upool, obj);
     upool_release(upool);
